@@ -27,7 +27,7 @@ RULE = ('A generated layout (width 3-8; positions of date, amount, description o
 ASSUMPTIONS = ['cells contain no bare carriage return and files carry no BOM (text-mode newline translation / BOM handling are outside the statement)',
                'date cells are exactly strftime output (padded or unpadded); amounts like 1_000 / 1e3 are not generated (statement silent)',
                'location is asserted only when its cell is non-empty']
-REQUIRED_CLASSES = ['regex_header_not_matching', 'good_and_malformed', 'embedded_delim_or_newline', 'dialect_regex', 'dialect_tab', 'dialect_char', 'decimal_comma', 'sign_negate', 'sign_abs',
+REQUIRED_CLASSES = ['dialect_whitespace_char', 'regex_header_not_matching', 'good_and_malformed', 'embedded_delim_or_newline', 'dialect_regex', 'dialect_tab', 'dialect_char', 'decimal_comma', 'sign_negate', 'sign_abs',
                     'template_mode', 'short_row_before_capture', 'nonfinite_amount', 'no_header']
 
 DATE_FORMATS = ['%m/%d/%Y', '%Y-%m-%d', '%d/%m/%Y', '%m/%d/%y', '%d.%m.%Y', '%d %b %Y', '%Y%m%d']
@@ -59,7 +59,7 @@ def layout(draw):
     return {'cols': cols, 'template': template,
             'datefmt': draw(st.sampled_from(DATE_FORMATS)),
             'sign': draw(st.sampled_from(['', '', '-', '+', 'override'])),
-            'dialect': draw(st.sampled_from(['comma', 'comma', ';', '|', ':', 'tab', 'regex'])), 'regex_strict': draw(st.booleans()),
+            'dialect': draw(st.sampled_from(['comma', 'comma', ';', '|', ':', 'tab', 'regex', 'tabchar', 'space'])), 'regex_strict': draw(st.booleans()),
             'header': draw(st.booleans()) or draw(st.booleans()),
             'decimal': draw(st.sampled_from(['.', '.', ','])),
             'spell': draw(st.integers(0, 2 ** 16)),
@@ -88,6 +88,10 @@ def delimiter_setting(lay):
         return None
     if d == 'tab':
         return 'tab'
+    if d == 'tabchar':
+        return '\t'  # the TAB character itself rather than the keyword
+    if d == 'space':
+        return ' '
     if d == 'regex':
         n = len(lay['cols'])
         groups = [r'([^|]*)'] * n
@@ -263,7 +267,7 @@ def build(case):
         for cells in lines_cells:
             buf.write(('' if cells is None else '|'.join(cells)) + '\n')
     else:
-        delim = {'comma': ',', 'tab': '\t'}.get(dialect, dialect)
+        delim = {'comma': ',', 'tab': '\t', 'tabchar': '\t', 'space': ' '}.get(dialect, dialect)
         w = csv.writer(buf, delimiter=delim, lineterminator='\n')
         for cells in lines_cells:
             if cells is None:
@@ -324,7 +328,7 @@ def check(case, stats: Stats):
         classes.add('good_and_malformed')
     if any(any(ch in r['desc'] for ch in ',;|:\n\t"') for r in case['rows']) and lay['dialect'] != 'regex':
         classes.add('embedded_delim_or_newline')
-    classes.add({'comma': 'dialect_comma', 'tab': 'dialect_tab', 'regex': 'dialect_regex'}.get(lay['dialect'], 'dialect_char'))
+    classes.add({'comma': 'dialect_comma', 'tab': 'dialect_tab', 'regex': 'dialect_regex', 'tabchar': 'dialect_whitespace_char', 'space': 'dialect_whitespace_char'}.get(lay['dialect'], 'dialect_char'))
     if lay['dialect'] == 'regex' and lay.get('regex_strict') and lay['header']:
         classes.add('regex_header_not_matching')
     if lay['decimal'] == ',':
